@@ -261,7 +261,8 @@ def check_c09(an):
 
 
 def probe_key(sim):
-    ps = [k for k in ('early_pass', 'late_waiter', 'stale_arrival') if sim.probes.get(k)]
+    ps = [k for k in ('early_pass', 'late_waiter', 'stale_arrival', 'rearrival_before_drain')
+          if sim.probes.get(k)]
     return '+'.join(ps) if ps else 'none'
 
 
